@@ -426,6 +426,8 @@ func c07Tail(s string, n int) string {
 	return s
 }
 
+var c07HangRe = regexp.MustCompile(`(?m)^HANG (\S+)`)
+
 // first frame below "Read at … by goroutine N:" / "Previous write at … by goroutine M:"
 var c07RaceAccessRe = regexp.MustCompile(`(?m)^(?:Read|Write|Previous read|Previous write) at [^\n]*\n\s+([^\s(]+(?:\([^)]*\))?[^\s(]*)\(`)
 
@@ -490,8 +492,11 @@ func c07Race(c *ctx) {
 					c.res.Fail("oracle", cas, "the race detector reports unsynchronised accesses:\n"+c07Tail("WARNING: DATA RACE"+b, 1100), sig)
 				}
 			}
-		} else if m := c07PanicRe.FindStringSubmatch(s); m != nil {
+		}
+		if m := c07PanicRe.FindStringSubmatch(s); m != nil {
 			c.res.Fail("oracle", cas, "panic during the race stress: "+c07Tail(s, 900), "panic:"+strings.TrimSpace(m[1])+":stress")
+		} else if hm := c07HangRe.FindStringSubmatch(s); hm != nil {
+			c.res.Fail("oracle", cas, "a Close (or operation) did not return during the race stress: "+c07Tail(s, 600), "hang:stress:"+hm[1])
 		} else if !strings.Contains(s, "STRESS-DONE") {
 			c.res.Fail("oracle", cas, "race stress did not finish: "+c07Tail(s, 900), "hang:stress")
 		}
